@@ -9,7 +9,6 @@ import (
 	"math"
 	"math/big"
 	"net/url"
-	"reflect"
 	"regexp"
 	"strings"
 	"time"
@@ -336,34 +335,19 @@ func splitFilter(s, sep string) any {
 }
 
 func uniqFilter(a []any) (result []any) {
-	seenMap := map[any]bool{}
-	seen := func(item any) bool {
-		if k := reflect.TypeOf(item).Kind(); k < reflect.Array || k == reflect.Ptr || k == reflect.UnsafePointer {
-			if seenMap[item] {
-				return true
-			}
-			seenMap[item] = true
-			return false
-		}
-		// the O(n^2) case:
-		for _, other := range result {
-			if eqItems(item, other) {
-				return true
-			}
-		}
-		return false
-	}
+	// distinct by Liquid equality, so that nil elements are handled and
+	// 1, int8(1) and a drop for 1 are the same element
 	for _, item := range a {
-		if !seen(item) {
+		seen := false
+		for _, other := range result {
+			if values.Equal(item, other) {
+				seen = true
+				break
+			}
+		}
+		if !seen {
 			result = append(result, item)
 		}
 	}
 	return
-}
-
-func eqItems(a, b any) bool {
-	if reflect.TypeOf(a).Comparable() && reflect.TypeOf(b).Comparable() {
-		return a == b
-	}
-	return reflect.DeepEqual(a, b)
 }
